@@ -917,12 +917,22 @@ def rule_load_boundary(rep: Report, idx: SourceIndex) -> bool:
 		r.skip('Modules.load', (m.relpath, 1), 'Modules.load vanished')
 		return False
 	pm_ = parent_map(f.node)
-	sites = [c_ for c_ in nodes(f.node, ast.Call) if isinstance(c_.func, ast.Attribute) and (c_.func.attr in ('preprocess', '__load_dependencies') or c_.func.attr.endswith('__load_dependencies') or (c_.func.attr == 'load' and unparse(c_.func.value).endswith('__loader')))]
+	def direct_sites(fn_node):
+		return [c_ for c_ in nodes(fn_node, ast.Call) if isinstance(c_.func, ast.Attribute) and (c_.func.attr in ('preprocess', '__load_dependencies') or c_.func.attr.endswith('__load_dependencies') or (c_.func.attr == 'load' and unparse(c_.func.value).endswith('__loader')))]
+	# (call inside Modules.load, name of the stage): the stage itself, or the call of a private helper of Modules whose body holds the stage
+	sites_named = [(c_, c_.func.attr) for c_ in direct_sites(f.node)]
+	mcls = m.cls('Modules')
+	for c_ in nodes(f.node, ast.Call):
+		if isinstance(c_.func, ast.Attribute) and isinstance(c_.func.value, ast.Name) and c_.func.value.id == 'self' and mcls is not None:
+			g = mcls.method(c_.func.attr)
+			if g is not None and g is not f and g.name.startswith('_') and not any(c_ is x for x, _ in sites_named):
+				sites_named += [(c_, s_.func.attr) for s_ in direct_sites(g.node)]
+	sites = [c_ for c_, _ in sites_named]
 	if not sites:
 		r.skip('Modules.load', f.where, 'Modules.load no longer calls __load_dependencies / preprocess')
 		return False
 	all_ok = True
-	for c_ in sites:
+	for c_, stage in sites_named:
 		ok_ = False
 		raw = None
 		for t in enclosing_tries(c_, pm_):
@@ -934,7 +944,7 @@ def rule_load_boundary(rep: Report, idx: SourceIndex) -> bool:
 					ok_ = True
 				else:
 					raw = h
-		key = f'Modules.load:{c_.func.attr.lstrip("_")}'
+		key = f'Modules.load:{stage.lstrip("_")}'
 		if ok_:
 			r.ok(key, (m.relpath, c_.lineno))
 		else:
